@@ -37,6 +37,8 @@ func init() {
 			ruleStrictValidated(c, "R12")
 			ruleInternalKeyIsNotAMethod(c, "R14")
 			ruleInterceptorSelection(c, "R15")
+			ruleSuffixSearchResumesAtNextByte(c, "R16")
+			ruleRegexpSuffixComparedBytewise(c, "R17")
 			rulePoolReleaseOnce(c, "R16")
 		},
 	})
